@@ -43,7 +43,6 @@ type Server struct {
 	quicServer  *http3.Server
 	sites       []*SiteConfig
 	connTimeout time.Duration // max time to wait for a connection before force stop
-	tlsGovChan  chan struct{} // close to stop the TLS maintenance goroutine
 	vhosts      *vhostTrie
 }
 
@@ -329,8 +328,14 @@ func (s *Server) Serve(ln net.Listener) error {
 			handler.listener = ln.(*tlsHelloListener)
 		}
 
-		// Rotate TLS session ticket keys
-		s.tlsGovChan = caskettls.RotateSessionTicketKeys(s.Server.TLSConfig)
+		// Rotate TLS session ticket keys for as long as this server serves:
+		// the rotation is stopped when Serve returns, which it does once the
+		// server is shut down - also when Stop ran before this goroutine got
+		// here, or when Stop gave up waiting for connections to drain. (Stop
+		// used to close the channel itself and missed both cases, leaking the
+		// goroutine, its ticker and the TLS configuration.)
+		tlsGovChan := caskettls.RotateSessionTicketKeys(s.Server.TLSConfig)
+		defer close(tlsGovChan)
 	}
 
 	defer func() {
@@ -501,17 +506,8 @@ func (s *Server) Stop() error {
 	ctx, cancel := context.WithTimeout(context.Background(), s.connTimeout)
 	defer cancel()
 
-	err := s.Server.Shutdown(ctx)
-	if err != nil {
-		return err
-	}
-
-	// signal any TLS governor goroutines to exit
-	if s.tlsGovChan != nil {
-		close(s.tlsGovChan)
-	}
-
-	return nil
+	// (the TLS session ticket key rotation ends when Serve returns)
+	return s.Server.Shutdown(ctx)
 }
 
 // OnStartupComplete lists the sites served by this server
